@@ -9,6 +9,20 @@ from architecture_simulator.isa.parser_exceptions import (
 )
 
 
+def check_int_literal(base: int):
+    """Returns a parse action that rejects a numeral Python's int() cannot convert with the given base
+    (e.g. a decimal with leading zeros under base 0, or one that exceeds the digit limit), so that the
+    line is reported as a syntax error instead of a ValueError escaping a later pass."""
+
+    def action(string, location, tokens):
+        try:
+            int(tokens[0], base=base)
+        except ValueError:
+            raise pp.ParseException(string, location, "invalid integer literal")
+
+    return action
+
+
 class Parser(ABC):
     """
     An abstract base class for Parsers that can provides some basic functionality
@@ -54,7 +68,10 @@ class Parser(ABC):
                 self.token_list.append(
                     (line_number, line, self._pattern_line.parseString(line))
                 )
-            except pp.ParseException:
+            except Exception:
+                # a mismatch is a pp.ParseException; anything else escaping the grammar (e.g. a
+                # KeyError from pyparsing's caseless matching of non-ASCII letters) also means
+                # that this line cannot be tokenized
                 raise ParserSyntaxException(line_number=line_number, line=line)
 
     def _segment(self) -> None:
